@@ -1,7 +1,7 @@
 """Implementation side of C02: applies the real operator constructors of sympde.calculus.core to
 generated argument trees.
 
-case  : {"dim":d, "op":name, "args":[G..], "seed":n}
+case  : {"dim":d, "op":name, "args":[G..], "seed":n [, "getitem": i]}   (getitem: the component arm op(E)[i])
 G (JSON gexpr, one grammar for recipes and for serialised real expressions; mirrors coq gexpr):
   {"k":"num","p","q"} {"k":"const","name"} {"k":"coord","i"} {"k":"sf","name"} {"k":"vf","name"}
   {"k":"comp","name","i"} {"k":"normal"} {"k":"add","a":[..]} {"k":"mul","a":[..]} {"k":"pow","b","e"}
@@ -116,6 +116,9 @@ def ser_g(expr):
     for name, f in ser.FN.items():
         if isinstance(expr, f):
             return {"k": "fn", "f": name, "a": ser_g(expr.args[0])}
+    if isinstance(expr, sp.Indexed) and len(expr.indices) == 1 and isinstance(expr.base, (C.BasicOperator, C.DiffOperator)) \
+            and getattr(expr.indices[0], "is_Integer", False):
+        return {"k": "idx", "a": ser_g(expr.base), "i": int(expr.indices[0])}      # oracle-only node (not in the Coq grammar)
     tn = type(expr).__name__
     if tn in NAME_OF and isinstance(expr, (C.BasicOperator, C.DiffOperator)):
         return {"k": "op", "name": NAME_OF[tn], "a": [ser_g(a) for a in expr.args]}
@@ -224,7 +227,11 @@ def real_arm(op, args, dim):
     if op in ("Dot", "Inner", "Cross"):
         from functools import reduce
         from operator import mul
-        return ("swap" if str(reduce(mul, n1)) > str(reduce(mul, n2)) else "keep") + pulled
+        x, y = reduce(mul, n1), reduce(mul, n2)
+        mbm = getattr(C, "_may_be_matrix", None)          # Dot: no canonical order when a factor may be matrix-valued
+        if op == "Dot" and mbm is not None and (mbm(x) or mbm(y)):
+            return "keep" + pulled
+        return ("swap" if str(x) > str(y) else "keep") + pulled
     return "keep" + pulled
 
 
@@ -277,6 +284,14 @@ def pred_of(op, args, arm, dim=3):
         return "commutative-nonscalar-factor"
     if op == "Grad" and nonscalar_commutative(args[0]):
         return "commutative-nonscalar-factor"
+    if op == "Dot":
+        def shape_of(a):
+            try:
+                return GConcrete(random.Random(0), dim=dim, deg=1).g(ser_g(a))[0]
+            except Exception:  # noqa
+                return "?"
+        if sorted([shape_of(args[0]), shape_of(args[1])]) == ["m", "v"]:
+            return "matrix-vector-order"          # matrix . vector / vector . matrix: the order of the arguments matters
 
     def var_pow(e):
         if isinstance(e, Pow) and not e.exp.is_number:
@@ -389,6 +404,11 @@ class GConcrete(ser.Concrete):
             if a[0] != "s":
                 raise IllTyped("function of a tensor")
             return ("s", ser.FN[j["f"]](a[1]))
+        if k == "idx":                                    # component of a vector-valued expression (oracle only)
+            v = self.g(j["a"], side)
+            if v[0] != "v" or not 0 <= j["i"] < len(v[1]):
+                raise IllTyped("component %d of %s" % (j["i"], v[0]))
+            return ("s", v[1][j["i"]])
         if k != "op":
             raise Unsupported("oracle node " + k)
         name = j["name"]
@@ -443,6 +463,10 @@ class GConcrete(ser.Concrete):
             return ("s", D(f, 0) * D(g, 1) - D(f, 1) * D(g, 0))
         elif name in ("Dot", "Inner") and sh == ["v", "v"]:
             return ("s", Add(*[x[0][i] * x[1][i] for i in R]))
+        elif name == "Dot" and sh == ["m", "v"]:          # matrix . vector: contraction over the column index
+            return ("v", [Add(*[x[0][i][jj] * x[1][jj] for jj in R]) for i in R])
+        elif name == "Dot" and sh == ["v", "m"]:          # vector . matrix: contraction over the row index
+            return ("v", [Add(*[x[0][i] * x[1][i][jj] for i in R]) for jj in R])
         elif name == "Inner" and sh == ["m", "m"]:
             return ("s", Add(*[x[0][i][jj] * x[1][i][jj] for i in R for jj in R]))
         elif name == "Cross" and sh == ["v", "v"]:
@@ -579,8 +603,18 @@ def run_case(case):
         out["arm"], out["pred"] = "?", "none"
         out["arm_error"] = "%s: %s" % (type(e).__name__, str(e)[:100])
     res = None
+    gi = case.get("getitem")
+    if gi is not None:
+        out["arm"], out["pred"] = "getitem", "component"
     try:
         res = cls_of(op)(*args)
+        if gi is not None:
+            # minus(E)[i] / plus(E)[i] ... : the object the subscript is applied to, then the subscript
+            try:
+                out["self"] = ser_g(res)
+            except Unsupported:
+                out["self"] = {"err": "unsupported-node"}
+            res = res[gi]
         out["out"] = ser_g(res)
         out["str"] = str(res)[:300]
     except Unsupported as e:
@@ -617,6 +651,8 @@ def run_case(case):
     try:
         conc = GConcrete(random.Random(case.get("seed", 0)), dim=d, deg=int(case.get("deg", 3)))
         lit = {"k": "op", "name": op, "a": out["ins"]}
+        if gi is not None:
+            lit = {"k": "idx", "a": lit, "i": gi}         # component i of the restriction / jump / average of E
         try:
             vl = conc.g(lit)
             orc["lit_ok"] = True
